@@ -847,7 +847,7 @@ Proof. intros. simpl. destruct (step fx s e). simpl. destruct (run fx s0 r). ref
 
 Lemma srun_cons : forall sp e r,
   srun dc sp (e :: r) = (fst (srun dc (fst (sstep dc sp e)) r), snd (sstep dc sp e) :: snd (srun dc (fst (sstep dc sp e)) r)).
-Proof. intros. simpl. destruct (sstep dc sp e). simpl. destruct (srun s r). reflexivity. Qed.
+Proof. intros. simpl. destruct (sstep dc sp e). simpl. destruct (srun dc s r). reflexivity. Qed.
 
 Lemma step_inv : forall s sp e, Inv s sp -> wf_ev sp e = true ->
   Inv (fst (step (Fix dc) s e)) (fst (sstep dc sp e))
@@ -896,7 +896,7 @@ Lemma wf_run_app : forall es1 es2 sp,
   wf_run dc sp (es1 ++ es2) = wf_run dc sp es1 && wf_run dc (fst (srun dc sp es1)) es2.
 Proof.
   induction es1 as [|e r IH]; intros; simpl; auto.
-  rewrite IH, andb_assoc. destruct (sstep dc sp e). simpl. destruct (srun s r). reflexivity.
+  rewrite IH, andb_assoc. destruct (sstep dc sp e). simpl. destruct (srun dc s r). reflexivity.
 Qed.
 
 (* reachable states satisfy the invariant *)
@@ -1040,7 +1040,7 @@ Proof.
   - destruct (own_open sp c t0).
     + destruct (st sp t0); simpl in H; unfold upd in H; deq t t0; auto; discriminate.
     + simpl in H. deq (owner sp t) c; [discriminate|auto].
-  - destruct (own_open sp c t0); auto. simpl in H. unfold upd in H. deq t t0; auto; discriminate.
+  - destruct (own_open sp c t0); auto. destruct dc; simpl in H; unfold upd in H; deq t t0; auto; discriminate.
   - destruct (tom sp mb) eqn:T; auto. destruct (st sp n) eqn:ST; auto.
     + destruct waiting; simpl in H; unfold upd in H; deq t n; auto; try discriminate.
       inversion H; subst. right. exists mb. auto.
